@@ -12,7 +12,7 @@ Fixpoint glob_of (t : list (string * string * gres)) (g u : string) : gres :=
   | (g', u', r) :: rest => if String.eqb g g' && String.eqb u u' then r else glob_of rest g u
   end.
 
-Definition no_info : uinfo := {| u_loop := None; u_canon := None; u_form := None |}.
+Definition no_info : uinfo := {| u_loop := None; u_canon := None; u_form := None; u_truth := None |}.
 
 Fixpoint info_of (t : list (string * uinfo)) (u : string) : uinfo :=
   match t with
@@ -44,10 +44,12 @@ Section Spec.
   Variable info : string -> uinfo.
   Variable cs : list client.
 
+  (* "registered" of the property text: loopback is the GROUND TRUTH u_truth (host exactly localhost,
+     or an IP literal in 127.0.0.0/8 or ::1), not what the library's classifier says *)
   Definition registered (c : client) (u rt : string) : bool :=
-    registeredb glob (fun u => u_loop (info u)) c u rt.
+    registeredb glob (fun u => u_truth (info u)) c u rt.
   Definition matching (c : client) (u : string) : bool :=
-    matches glob (fun u => u_loop (info u)) c u.
+    matches glob (fun u => u_truth (info u)) c u.
 
   Definition is_page (x : out) : bool := match x with OPage _ _ => true | _ => false end.
 
@@ -135,6 +137,23 @@ Section Spec.
     end.
 
 End Spec.
+
+(* the guard of C03_spec_holds: on every URI of the case the library's loopback classification
+   equals the ground truth. The driver does NOT enforce it: a case that breaks it is judged by
+   `spec` like any other (and flagged as soon as the difference lets a URI through). *)
+Definition opq_eqb (a b : option (string * string)) : bool :=
+  match a, b with
+  | Some x, Some y => pq_eqb x y
+  | None, None => true
+  | _, _ => false
+  end.
+Definition loop_agree (t : list (string * uinfo)) : bool :=
+  forallb (fun e => opq_eqb (u_truth (snd e)) (u_loop (snd e))) t.
+Definition wf (i : input) : bool :=
+  match i with
+  | IValidate _ _ _ t => loop_agree (t_uri t)
+  | IHistory _ _ _ t _ => loop_agree (t_uri t)
+  end.
 
 Definition vres_eqb (a b : vres) : bool :=
   match a, b with VOk, VOk | VBad, VBad | VGlobErr, VGlobErr => true | _, _ => false end.
